@@ -4,7 +4,8 @@
    [freach c gm]: c is reachable from a fresh connection by ANY sequence of the model's operations
    (application writes/resets, received MAX_DATA / MAX_STREAM_DATA / MAX_STREAMS / STOP_SENDING, peer-opened
    streams, transport parameters, handshake completion, delivery outcomes -- legitimate or not --, and
-   _write_stream_frame / _write_reset_stream_frame calls for any stream in any order with any size budget)
+   _write_stream_frame / _write_reset_stream_frame / _write_stop_sending_frame calls for any stream in any order,
+   stop_stream, with any size budget)
    in which transport parameters never lower a flow-control value the connection already holds
    ([pguard], RFC 9000 7.4.1).  [gm sid] is the largest MAX_STREAM_DATA value received for the stream. *)
 From Coq Require Import ZArith List Bool.
@@ -82,13 +83,13 @@ Theorem reset_final_size_within_limit : forall c gm sid code fs c',
 Proof. exact reset_within_limit. Qed.
 Print Assumptions reset_final_size_within_limit.
 
-(* REFUTED (candidate finding C06-F2): "no RESET_STREAM for a stream with sid/4 >= max_streams".  After
-   reset_stream() on a stream blocked by the stream-count limit the stream loop writes RESET_STREAM. *)
-Theorem blocked_streams_silent_reset_refuted :
-  exists c gm, freach c gm /\ is_local c 4 = true /\ ms_for c 4 <= 4 / 4 /\
-    fst (fstep c (OGetReset 4)) = FSender (SResetFrame (Some 7) 0).
-Proof. exact reset_on_blocked_stream_witness. Qed.
-Print Assumptions blocked_streams_silent_reset_refuted.
+(* stretch (positive since the fix of finding C06-F2 on the `fixes` branch): no STREAM, RESET_STREAM or
+   STOP_SENDING frame is written for a locally initiated stream with sid/4 >= max_streams -- each of the three
+   write calls of the stream loop is refused (or the stream does not exist), for every size budget *)
+Theorem blocked_streams_silent : forall c gm sid, freach c gm -> is_local c sid = true -> ms_for c sid <= sid / 4 ->
+  (forall ms, silent (fst (fstep c (OGet sid ms)))) /\ silent (fst (fstep c (OGetReset sid))) /\ silent (fst (fstep c (OGetStop sid))).
+Proof. exact blocked_streams_silent_l. Qed.
+Print Assumptions blocked_streams_silent.
 
 (* REFUTED without the parameter guard (candidate finding C06-F1): remembered 0-RTT parameters 100, the
    handshake delivers 50; the stream created before keeps 100 and reaches highest_offset 80 > 50 = everything
